@@ -167,11 +167,21 @@ def St.removePool (s : St) (c : Cidr) : St :=
   let (s, ch) := s.updateCIDR c (fun ri => { ri with pool := none })
   if ch then s.markChildrenDirty c else s
 
-def St.updateBlockRoute (s : St) (c : Cidr) (n : Nat) : St :=
-  (s.updateCIDR c (fun ri => { ri with block := some n })).1
+/-- `RouteTrie.descendants`: the CIDRs with data strictly inside `c`. -/
+def St.descendants (s : St) (c : Cidr) : List Cidr :=
+  (s.trie.filter (fun e => c.covers e.1 && e.1 != c)).map (·.1)
 
+/-- `UpdateBlockRoute`: a changed block also marks the CIDRs below it dirty
+(`markDescendantsDirty`, repo commit "recalculate routes inside an IPAM block when the block changes"). -/
+def St.updateBlockRoute (s : St) (c : Cidr) (n : Nat) : St :=
+  let (s', ch) := s.updateCIDR c (fun ri => { ri with block := some n })
+  if ch then (s'.descendants c).foldl (fun s d => s.markDirty d) s' else s'
+
+/-- `RemoveBlockRoute`: the descendants are collected before the update. -/
 def St.removeBlockRoute (s : St) (c : Cidr) : St :=
-  (s.updateCIDR c (fun ri => { ri with block := none })).1
+  let ds := s.descendants c
+  let (s', ch) := s.updateCIDR c (fun ri => { ri with block := none })
+  if ch then ds.foldl (fun s d => s.markDirty d) s' else s'
 
 /-- ordered insert (what append + sort.Strings does to an already sorted list). -/
 def insertNat : List Nat → Nat → List Nat
